@@ -73,7 +73,7 @@ def gen(tape: Tape, tier: str) -> dict:
             funcs=ALL_TREE_FUNCS,
             methods=("map-reduce", "cohorts", "cohorts", None),
             reindexes=(None, None, True, False),
-            max_n=30,
+            max_n=40 if tier == "thorough" else 30,
             min_blocks=1,
             expected_modes=("none", "none", "exact", "superset"),
         )
